@@ -390,6 +390,39 @@ func init() {
 				c18Case(c, to, from, tag+"+unset-instants-seen-in-a-zone", T{"zonedZero": true})
 				continue
 			}
+			if tag == "same-id-type/"+goType && c.R.Chance(20) {
+				// the stored value embeds an object where the update carries the IRI of that very object (and the reverse)
+				var cand []string
+				for _, fams := range []string{"Object", goType} {
+					for _, name := range c18Merged[fams] {
+						if fieldKind(goType, name) == "item" {
+							cand = append(cand, name)
+						}
+					}
+				}
+				if len(cand) > 0 {
+					name := cand[c.R.Intn(len(cand))]
+					ref := g1.nextID("embedded-or-named")
+					emb := T{"t": "Object", "ptr": true, "f": T{"ID": T{"s": ref}, "Type": T{"s": "Image"}, "Name": T{"nlv": []interface{}{[]interface{}{"-", "a name"}}}}}
+					if name == "Inbox" || name == "Outbox" || name == "Followers" || name == "Following" || name == "Liked" || name == "First" || name == "Last" || name == "PartOf" || name == "Next" || name == "Prev" {
+						emb = T{"t": "OrderedCollection", "ptr": true, "f": T{"ID": T{"s": ref}, "Type": T{"s": "OrderedCollection"}, "TotalItems": T{"uint": 3}}}
+					}
+					if c.R.Bool() {
+						tf[name], ff[name] = emb, T{"iri": ref}
+					} else {
+						tf[name], ff[name] = T{"iri": ref}, emb
+					}
+					tag = "embedded-in-one-named-in-the-other/" + goType
+				}
+			}
+			if tag == "same-id-type/"+goType && c.R.Chance(15) {
+				// both sides have a source; the media types agree up to a parameter or letter case
+				mts := [][2]string{{"text/markdown; variant=GFM", "text/markdown; variant=CommonMark"}, {"text/html", "TEXT/HTML"}, {"text/plain; charset=utf-8", "text/plain"}, {"text/markdown", "text/markdown"}}
+				mt := mts[c.R.Intn(len(mts))]
+				tf["Source"] = T{"rec": T{"Content": T{"nlv": []interface{}{[]interface{}{"-", "the stored source"}}}, "MediaType": T{"s": mt[0]}}}
+				ff["Source"] = T{"rec": T{"Content": T{"nlv": []interface{}{[]interface{}{"-", "the update's source"}}}, "MediaType": T{"s": mt[1]}}}
+				tag = "sources-with-near-equal-media-types/" + goType
+			}
 			c18Case(c, to, from, tag)
 		}
 	}
